@@ -206,6 +206,39 @@ def check(run):
     run.extra['exhaustive'] = True
     run.extra['objects'] = len(objs)
 
+    # 2b. the options a converted function hands to its callees: every FunctionScope entered with a value -- a fresh,
+    # short-lived object each time, as generated code creates them -- carries exactly that value's call_options()
+    from malt.operators import function_wrappers
+    from malt.core import converter as _conv
+    order = list(range(len(objs)))
+    random.Random(run.seed * 7 + 3).shuffle(order)
+    nscopes = 0
+    for idx in order[:1200]:
+        c = objs[idx]
+        arg = c[4]
+        if _conv.Feature.NAME_SCOPES in (set() if arg is None else ({arg} if isinstance(arg, Feature) else set(arg))) \
+                or _conv.Feature.AUTO_CONTROL_DEPS in (set() if arg is None else ({arg} if isinstance(arg, Feature) else set(arg))) \
+                or _conv.Feature.ALL in (set() if arg is None else ({arg} if isinstance(arg, Feature) else set(arg))):
+            continue          # FunctionScope asserts these are not requested
+        o = CO(recursive=c[0], user_requested=False, internal_convert_user_code=c[2],
+               optional_features=type(arg)(arg) if isinstance(arg, (list, set)) else arg)
+        want = o.call_options()
+        try:
+            with function_wrappers.FunctionScope('f', 'fscope', o) as fs:
+                got = fs.callopts
+        except Exception as e:   # noqa
+            failures.append(('FunctionScope raised %s: %s' % (type(e).__name__, e), desc(c), ''))
+            continue
+        nscopes += 1
+        if not (got == want and (got.recursive, got.user_requested, got.internal_convert_user_code, got.optional_features) ==
+                (want.recursive, want.user_requested, want.internal_convert_user_code, want.optional_features)):
+            failures.append(('the options a FunctionScope hands to callees are not the call_options() of the options it was entered with '
+                             '(after scopes were entered with other, short-lived values)', desc(c),
+                             'scope number %d: callopts=%r expected=%r' % (nscopes, got.as_tuple(), want.as_tuple())))
+        del o, want, got, fs
+    run.count(nscopes)
+    run.extra['function_scopes_entered'] = nscopes
+
     # 3. model vs implementation, evaluated inside Coq
     corr_bad = None
     if tie_ok:
